@@ -315,7 +315,13 @@ class ObjectTemplate(base.HyperValue, utils.Formattable):
             f'Value is missing from input. Path=\'{path}\'.')
       if (isinstance(template_value, base.HyperValue)
           and (not self._where or self._where(template_value))):
-        children.append(template_value.encode(input_value))
+        hyper_value = template_value
+        # Apply where clause to child choices (as `_parse_generators` does).
+        if (self._where
+            and isinstance(hyper_value, base.HyperPrimitive)
+            and hasattr(hyper_value, 'where')):
+          hyper_value = hyper_value.clone().rebind(where=self._where)
+        children.append(hyper_value.encode(input_value))
       elif isinstance(template_value, derived.DerivedValue):
         if self._compute_derived:
           referenced_values = [
